@@ -34,6 +34,7 @@ with prog :=
   | Done
   | Seq (i : instr) (p : prog).
 Notation "i ;; p" := (Seq i p) (at level 61, right associativity).
+Definition pl (l : list instr) : prog := fold_right Seq Done l.     (* program from a list of instructions *)
 
 (* the instructions the translator speaks in *)
 Definition Alloc (x : var) : instr := Assign x [New] [New].                     (* fresh buffer *)
@@ -115,7 +116,7 @@ with run_i (tbl : table) (n : nat) (i : instr) (s : rstate) {struct n} : outcome
         match nth_error tbl f with
         | None => (OExc, s)
         | Some fd =>
-            let vals := map (env s) args in
+            let vals := map (env s) (firstn (f_arity fd) args) in
             match run_p tbl m (f_body fd) (entry vals (next s) (wr s) (ch s)) with
             | (ORet v, s1) => (ONorm, RState (upd (env s) x v) (next s1) (wr s1) (ch s1))
             | (ONorm, s1) =>
@@ -147,34 +148,42 @@ Fixpoint union (l1 l2 : aset) : aset :=
 Definition subset (l1 l2 : aset) : bool := forallb (fun a => mem a l2) l1.
 
 Definition aval := (aset * aset)%type.
-Record astate := AState { aenv : list (var * aval); awr : aset; aro : aset; are : aset }.
+(* the abstract environment is positional: entry x belongs to variable x; missing = no atoms *)
+Record astate := AState { aenv : list aval; awr : aset; aro : aset; are : aset }.
 
-Fixpoint lookup (l : list (var * aval)) (x : var) : aval :=
-  match l with
-  | [] => ([], [])
-  | (y, v) :: l' => if Nat.eqb y x then v else lookup l' x
+Definition get (A : astate) (x : var) : aval := nth x (aenv A) ([], []).
+Fixpoint set_nth (l : list aval) (x : nat) (v : aval) : list aval :=
+  match x, l with
+  | 0, [] => [v]
+  | 0, _ :: l' => v :: l'
+  | S x', [] => ([], []) :: set_nth [] x' v
+  | S x', a :: l' => a :: set_nth l' x' v
   end.
-Definition get (A : astate) (x : var) : aval := lookup (aenv A) x.
 Definition set (A : astate) (x : var) (v : aval) : astate :=
-  AState ((x, v) :: filter (fun p => negb (Nat.eqb (fst p) x)) (aenv A)) (awr A) (aro A) (are A).
+  AState (set_nth (aenv A) x v) (awr A) (aro A) (are A).
 
 Definition aref (A : astate) (r : ref) : aset :=
   match r with New => [] | Own y => fst (get A y) | El y => snd (get A y) end.
 Fixpoint arefs (A : astate) (rs : list ref) : aset :=
   match rs with [] => [] | r :: rs' => union (aref A r) (arefs A rs') end.
 
-Definition keys (A : astate) : list var := map fst (aenv A).
-Fixpoint dedup (l : list nat) : list nat :=
-  match l with [] => [] | a :: l' => if mem a l' then dedup l' else a :: dedup l' end.
-
+Fixpoint join_env (l1 l2 : list aval) : list aval :=
+  match l1, l2 with
+  | [], _ => l2
+  | _, [] => l1
+  | (o1, e1) :: l1', (o2, e2) :: l2' => (union o1 o2, union e1 e2) :: join_env l1' l2'
+  end.
 Definition join (A B : astate) : astate :=
-  AState (map (fun x => (x, (union (fst (get A x)) (fst (get B x)), union (snd (get A x)) (snd (get B x)))))
-              (dedup (keys A ++ keys B)))
-         (union (awr A) (awr B)) (union (aro A) (aro B)) (union (are A) (are B)).
+  AState (join_env (aenv A) (aenv B)) (union (awr A) (awr B)) (union (aro A) (aro B)) (union (are A) (are B)).
 
+Fixpoint leq_env (l1 l2 : list aval) : bool :=
+  match l1, l2 with
+  | [], _ => true
+  | (o1, e1) :: l1', [] => subset o1 [] && subset e1 [] && leq_env l1' []
+  | (o1, e1) :: l1', (o2, e2) :: l2' => subset o1 o2 && subset e1 e2 && leq_env l1' l2'
+  end.
 Definition leqb (A B : astate) : bool :=
-  forallb (fun x => subset (fst (get A x)) (fst (get B x)) && subset (snd (get A x)) (snd (get B x))) (keys A)
-  && subset (awr A) (awr B) && subset (aro A) (aro B) && subset (are A) (are B).
+  leq_env (aenv A) (aenv B) && subset (awr A) (awr B) && subset (aro A) (aro B) && subset (are A) (are B).
 
 (* what a callee is known to do: parameter atoms it may write, atoms its result may share *)
 Record summary := Summary { s_w : aset; s_ro : aset; s_re : aset }.
@@ -230,7 +239,7 @@ with an_p (p : prog) (A : astate) : option astate :=
   end.
 
 Definition ainit (k : nat) : astate :=
-  AState (map (fun i => (i, ([2 * i], [2 * i + 1]))) (seq 0 k)) [] [] [].
+  AState (map (fun i => ([2 * i], [2 * i + 1])) (seq 0 k)) [] [] [].
 
 Definition analyse (fd : fdef) : option astate := an_p (f_body fd) (ainit (f_arity fd)).
 
@@ -266,12 +275,19 @@ Fixpoint unsafe_from (k : nat) (tbl : table) (sums : summaries) : list fname :=
   end.
 Definition unsafe_funs (tbl : table) (sums : summaries) : list fname := unsafe_from 0 tbl sums.
 
-(* summary inference (not trusted: its result is checked by table_ok): Kleene iteration from "no effect" *)
+(* summary inference (not trusted: its result is checked by table_ok): Kleene iteration from "no effect",
+   stopped as soon as a round changes nothing *)
 Definition infer_round (tbl : table) (sums : summaries) : summaries :=
   map (fun fd => match analyse sums fd with
                  | Some A => Summary (awr A) (aro A) (are A)
                  | None => Summary [] [] []
                  end) tbl.
+Definition sum_leb (a b : summary) : bool :=
+  subset (s_w a) (s_w b) && subset (s_ro a) (s_ro b) && subset (s_re a) (s_re b).
 Fixpoint infer (n : nat) (tbl : table) (sums : summaries) : summaries :=
-  match n with 0 => sums | S m => infer m tbl (infer_round tbl sums) end.
+  match n with
+  | 0 => sums
+  | S m => let s' := infer_round tbl sums in
+           if forallb2 sum_leb s' sums then sums else infer m tbl s'
+  end.
 Definition infer0 (n : nat) (tbl : table) : summaries := infer n tbl (map (fun _ => Summary [] [] []) tbl).
